@@ -24,12 +24,7 @@ func (node *StreamJoin) Typecheck(ctx context.Context, env physical.Environment,
 	left, leftMapping := node.left.Typecheck(ctx, env, logicalEnv)
 	right, rightMapping := node.right.Typecheck(ctx, env, logicalEnv)
 
-	for k, v := range leftMapping {
-		// Put all mapped variables into one map.
-		// Left mapping takes precedence. Duplicates get overwritten.
-		// TODO: Duplicates should be handled well.
-		rightMapping[k] = v
-	}
+	outMapping := mergeJoinMappings(leftMapping, rightMapping)
 
 	return physical.Node{
 		Schema: physical.Schema{
@@ -42,7 +37,23 @@ func (node *StreamJoin) Typecheck(ctx context.Context, env physical.Environment,
 			Left:  left,
 			Right: right,
 		},
-	}, rightMapping
+	}, outMapping
+}
+
+// mergeJoinMappings puts all mapped variables of both join sides into one new map.
+// The sides' own mappings are left untouched, as the nodes below may keep using them.
+func mergeJoinMappings(leftMapping, rightMapping map[string]string) map[string]string {
+	outMapping := make(map[string]string, len(leftMapping)+len(rightMapping))
+	for k, v := range rightMapping {
+		outMapping[k] = v
+	}
+	for k, v := range leftMapping {
+		if _, ok := rightMapping[k]; ok {
+			panic(fmt.Errorf("both sides of the join have a column named '%s', give the tables different aliases", k))
+		}
+		outMapping[k] = v
+	}
+	return outMapping
 }
 
 type OuterJoin struct {
@@ -65,14 +76,7 @@ func (node *OuterJoin) Typecheck(ctx context.Context, env physical.Environment, 
 	left, leftMapping := node.left.Typecheck(ctx, env, logicalEnv)
 	right, rightMapping := node.right.Typecheck(ctx, env, logicalEnv)
 
-	outMapping := rightMapping
-
-	for k, v := range leftMapping {
-		// Put all mapped variables into one map.
-		// Left mapping takes precedence. Duplicates get overwritten.
-		// TODO: Duplicates should be handled well.
-		outMapping[k] = v
-	}
+	outMapping := mergeJoinMappings(leftMapping, rightMapping)
 
 	predicate := node.predicate.Typecheck(ctx, env.WithRecordSchema(right.Schema).WithRecordSchema(left.Schema), logicalEnv.WithRecordUniqueVariableNames(outMapping))
 
@@ -158,10 +162,13 @@ func (node *LookupJoin) Typecheck(ctx context.Context, env physical.Environment,
 	left, leftMapping := node.left.Typecheck(ctx, env, logicalEnv)
 	right, rightMapping := node.right.Typecheck(ctx, env.WithRecordSchema(left.Schema), logicalEnv.WithRecordUniqueVariableNames(leftMapping))
 
+	// Put all mapped variables into one new map. Left mapping takes precedence.
+	outMapping := make(map[string]string, len(leftMapping)+len(rightMapping))
+	for k, v := range rightMapping {
+		outMapping[k] = v
+	}
 	for k, v := range leftMapping {
-		// Put all mapped variables into one map.
-		// Left mapping takes precedence. Duplicates get overwritten.
-		rightMapping[k] = v
+		outMapping[k] = v
 	}
 
 	return physical.Node{
@@ -174,5 +181,5 @@ func (node *LookupJoin) Typecheck(ctx context.Context, env physical.Environment,
 			Source: left,
 			Joined: right,
 		},
-	}, rightMapping
+	}, outMapping
 }
